@@ -430,11 +430,85 @@ func genSpec(seed uint64, worker, run int, tier string) (*Spec, *Rng, faultSet) 
 		}
 		s.Tasks = append(s.Tasks, ops)
 	}
-	if r.Chance(0.08) {
+	switch k := r.Intn(100); {
+	case k < 8:
 		g.sweep(s, hot, fs)
+	case k < 12:
+		g.crowd(s, hot, fs)
+	case k < 14:
+		g.marathon(s, hot, fs, tier)
 	}
 	s.Order = r.Perm(len(s.Tasks))
 	return s, r, fs
+}
+
+// crowd: many callers at once on the same object (state that is correct for up
+// to N simultaneous callers only).
+func (g *gen) crowd(s *Spec, hot []int, fs faultSet) {
+	r := g.r
+	nt := r.Range(7, 12)
+	h := hot[0]
+	fam := [][]string{mObjArg, mSpatialV, mSpatialG, mSerial, mCallback, nil}[r.Intn(6)]
+	s.Tasks = nil
+	for t := 0; t < nt; t++ {
+		n := r.Range(1, 3)
+		ops := make([]Op, n)
+		for i := range ops {
+			ops[i] = g.op(s.Pool, hot, fs, false)
+			if r.Chance(0.85) {
+				ops[i].R = h
+			}
+			if fam != nil && r.Chance(0.8) {
+				ops[i].M = fam[r.Intn(len(fam))]
+				ops[i].CB = nil
+				if usesCallback(ops[i].M) {
+					ops[i].CB = &CB{}
+					if ops[i].M != "ForEach" {
+						ops[i].Rect = [4]float64{-180, -90, 180, 90}
+					}
+				}
+				ops[i].Prefix, ops[i].Cap = "", 0
+			}
+		}
+		s.Tasks = append(s.Tasks, ops)
+	}
+	s.Strategy = "crowd"
+}
+
+// marathon: few callers, very many calls on the same object (behaviour that
+// only changes after an object has been queried hundreds or thousands of times).
+func (g *gen) marathon(s *Spec, hot []int, fs faultSet, tier string) {
+	r := g.r
+	nt := r.Pick(2, 2, 3)
+	h := hot[0]
+	lo, hi := 150, 700
+	if tier == "thorough" {
+		lo, hi = 400, 3000
+	}
+	// a small repertoire repeated many times, so that per-object and per-method
+	// counters really reach high values
+	rep := make([]Op, r.Range(2, 6))
+	for i := range rep {
+		rep[i] = g.op(s.Pool, hot, fs, false)
+		rep[i].R = h
+		if rep[i].CB != nil {
+			rep[i].CB = &CB{CancelAt: rep[i].CB.CancelAt}
+		}
+	}
+	s.Tasks = nil
+	for t := 0; t < nt; t++ {
+		n := r.Range(lo, hi)
+		ops := make([]Op, n)
+		for i := range ops {
+			ops[i] = rep[r.Intn(len(rep))]
+			if r.Chance(0.3) {
+				ops[i].Pt = g.probePoint(s.Pool)
+				ops[i].Rect = g.probeRect(s.Pool)
+			}
+		}
+		s.Tasks = append(s.Tasks, ops)
+	}
+	s.Strategy = "marathon"
 }
 
 // allMethods is every operation the driver knows, for sweep workloads.
@@ -515,8 +589,8 @@ func finalizeSchedule(s *Spec, r *Rng, fs faultSet, soloSteps int64) {
 	}
 	var abs []absDecision
 	pre := ""
-	if s.Strategy == "sweep" {
-		pre = "sweep+"
+	if s.Strategy == "sweep" || s.Strategy == "crowd" || s.Strategy == "marathon" {
+		pre = s.Strategy + "+"
 	}
 	defer func() { s.Strategy = pre + s.Strategy }()
 	switch k := r.Intn(100); {
@@ -525,6 +599,21 @@ func finalizeSchedule(s *Spec, r *Rng, fs faultSet, soloSteps int64) {
 	case k < 25:
 		s.Strategy = "stall"
 		abs = append(abs, absDecision{at: 1 + int64(r.U64()%uint64(total)), to: verifsim.ToDemote})
+	case k < 33:
+		// pile-up: every task is preempted shortly after it started, so that
+		// all of them are inside a call at the same moment
+		s.Strategy = "pileup"
+		at := int64(0)
+		for i := int32(0); i < nt; i++ {
+			at += int64(r.Range(1, 80))
+			abs = append(abs, absDecision{at: at, to: verifsim.ToDemote})
+		}
+		if r.Chance(0.5) {
+			for i := 0; i < 20; i++ {
+				at += int64(r.Range(1, 40))
+				abs = append(abs, absDecision{at: at, to: int32(r.Intn(int(nt)))})
+			}
+		}
 	case k < 45:
 		d := r.Range(2, 3)
 		s.Strategy = "pct"
